@@ -41,6 +41,7 @@
 
 
 
+#include <xalanc/XPath/MutableNodeRefList.hpp>
 #include <xalanc/XPath/XalanQNameByReference.hpp>
 #include <xalanc/XPath/XPathFactory.hpp>
 #include <xalanc/XPath/XPathProcessor.hpp>
@@ -260,6 +261,16 @@ StylesheetRoot::process(
     executionContext.pushCurrentMode(&s_emptyQName);
 
     const XPathExecutionContext::CurrentNodePushAndPop  theCurrentNodePushAndPop(executionContext, sourceTree);
+
+    // The initial current node list consists of just the root node,
+    // so position() and last() are 1 in the root rule.
+    MutableNodeRefList  theContextNodeList(executionContext.getMemoryManager());
+
+    theContextNodeList.addNode(sourceTree);
+
+    const XPathExecutionContext::ContextNodeListPushAndPop  theContextNodeListPushAndPop(
+                executionContext,
+                theContextNodeList);
 
     // Output the action of the found root rule.  All processing
     // occurs from here.
